@@ -34,6 +34,17 @@ claim("C04", "proof",
       "Lean kernel + standard axioms for the stripper part; LALRPOP @L/@R, lifting/desugaring metadata flow and codespan rendering are exercised, not proved.",
       "Lean 4 proof (offset preservation) + label audit on the real pipeline", "5 (C04)")
 
+claim("C11", "proof",
+      "The two BN254-specific template tables, the documented table, the three prime literals, the accepted curve names and the defaults "
+      "are re-extracted from /repo's source on every run into Gen/Tables.lean; Lean then proves (Props/C11.lean), for every template name "
+      "and curve, flagged = documented (with Circomlib's spelling), never under BN254; primes equal the independently stated constants with "
+      "bit sizes 254/255/64; for all n the Num2Bits/Bits2Num guard is 'constant and < 254'; for all k and each curve the LessThan range "
+      "check holds iff 2^k - 1 <= p/2; a spelling is accepted iff its ASCII upper-casing is one of the three names. The hand-modelled "
+      "guards are tied to the real passes on every (curve, name) incl. near-misses, all sizes 0..300 and non-constant sizes, and ~300 "
+      "spellings incl. non-ASCII look-alikes (in-process and through clap).",
+      "Lean kernel + standard axioms; the regex translator and the harness are trusted; clap is exercised only.",
+      "Lean 4 proof over tables regenerated from source + complete finite correspondence of the guards", "5 (C11)")
+
 ALL = ["C%02d" % i for i in range(1, 21)]
 def main():
     checks = []
